@@ -501,6 +501,9 @@ pub fn read(mem: &mut Memory, args: &[GcRef], _env: GcRef, recursion_depth: usiz
     }
     validate_args!(mem, READ.name, args, (let input: TypeLabel::Any), (let source: TypeLabel::Any), (let start_line: TypeLabel::Number), (let start_column: TypeLabel::Number));
 
+    if *start_line < 0 || *start_column < 1 {
+        return Err(make_error(mem, "wrong-arg-value", READ.name, &vec![]));
+    }
     let sl = *start_line         as usize;
     let sc = (*start_column - 1) as usize;
 
